@@ -13,6 +13,8 @@ struct Req {
   int mid = -1;
   bool verdict_fail = false;
   int handler_calls = 0, nacks = 0;
+  uint64_t t_first_nack = 0, t_first_resp = 0;
+  int first_nack_reason = -1;
   std::vector<int> resp_mids;          // mid of every response handed to the handler
   std::vector<int> resp_types;
   uint64_t t_sent = 0, t_concluded = 0;
@@ -88,6 +90,7 @@ coap_response_t resp_cb(coap_session_t *, const coap_pdu_t *, const coap_pdu_t *
   }
   Req &r = g->reqs[(size_t)i];
   r.handler_calls++;
+  if (!r.t_first_resp) r.t_first_resp = g->w.now();
   r.resp_mids.push_back(mid);
   r.resp_types.push_back(type);
   conclude(i);
@@ -106,6 +109,7 @@ void nack_cb(coap_session_t *s, const coap_pdu_t *sent, const coap_nack_reason_t
   int i = find_req(cx::tok_of(sent));
   if (i < 0) return;
   g->reqs[(size_t)i].nacks++;
+  if (!g->reqs[(size_t)i].t_first_nack) { g->reqs[(size_t)i].t_first_nack = g->w.now(); g->reqs[(size_t)i].first_nack_reason = (int)reason; }
   conclude(i);
 }
 
@@ -320,7 +324,8 @@ struct C07 : Property {
           // copies of one response message are judged by the duplicate rules below; here: distinct response messages
           if (mids.size() > 1)
             res.violate("R4.double_delivery", strfmt("distinct_response_messages,server_ran_handler%s", r.server_handler_runs > 1 ? "_again" : "_once"), ctx);
-          if (r.handler_calls && r.nacks) res.violate("R4.response_and_nack", "response_and_nack", ctx);
+          if (r.handler_calls && r.nacks)
+            res.violate("R4.response_and_nack", r.first_nack_reason == COAP_NACK_TOO_MANY_RETRIES && r.t_first_resp > r.t_first_nack ? "separate_response_after_give_up" : "response_and_nack", ctx);
           if (r.nacks > 1) res.violate("R4.double_nack", "double_nack", ctx);
           if (!r.handler_calls && !r.nacks) {
             // legitimately open-ended: the Empty ACK arrived and the separate response was a NON that the network lost,
